@@ -106,8 +106,9 @@ func init() {
 			}
 			cs.hashes = append(cs.hashes, hashEntry{in, out})
 		}
+		// like the real Sum: append(b, digest...) - in place when b has room
 		prefix, _ := a[1].([]value)
-		return append(cloneVals(prefix), out...)
+		return append(prefix, cloneVals(out)...)
 	}
 
 	externals["crypto/aes.NewCipher"] = func(fr *frame, a []value) value {
